@@ -125,12 +125,7 @@ func doRegex(spec string) (out string) {
 			return "E:mismatch:replace-rejected:" + doc.Esc(err.Error())
 		}
 		got := doEvaluate(e, d, ctx)
-		// $n read as group n: Go's template syntax needs ${n}
-		tmpl := f[3]
-		for i := re.NumSubexp(); i >= 1; i-- {
-			tmpl = strings.ReplaceAll(tmpl, "$"+strconv.Itoa(i), "${"+strconv.Itoa(i)+"}")
-		}
-		want := "S:" + escNoTilde(re.ReplaceAllString(f[1], tmpl))
+		want := "S:" + escNoTilde(xpathReplace(re, f[1], f[3]))
 		if got != want {
 			return "E:mismatch:replace:" + got + "|" + want
 		}
@@ -141,7 +136,7 @@ func doRegex(spec string) (out string) {
 
 var reAtoms = []string{"a", "b", "ab", ".", "[ab]", "[^a]", "\\d", "\\w+", "(a)", "(b|c)", "(a+)(b*)", "a*", "b?", "^", "$", "x{2}", "(?i)A", "[0-9]+", "(", ")", "[", "*", "a**", "\\", "(?P<n>a)", "a|", "\\s"}
 var reSubjects = []string{"", "a", "ab", "abc", "aab", "bbb", "xx", "a1b22", "A", "hello world", "aaa", "cab", "b a"}
-var reTemplates = []string{"", "x", "$1", "[$1]", "$2$1", "$0", "$3", "$1x", "${1}x", "$$", "$", "a$1b$2c", "$10", "$11"}
+var reTemplates = []string{"", "x", "$1", "[$1]", "$2$1", "$0", "$3", "$1x", "a$1b$2c", "$10", "$11", "$0x", "[$0y]", "$5x", "$1y", "$2_", "$12", "$21", "$35", "$9z", "$1$1", "$2x$1", "$01", "$00", "$007"}
 
 func genC16(o *cw) {
 	// sequential cache histories: capacities 0..5, key alphabets, lengths
@@ -196,4 +191,44 @@ func genC16(o *cw) {
 		o.c("regex", nil, "/", "-", "replace\x00"+s+"\x00"+p+"\x00"+t, "", "replace")
 	}
 	_ = gen.Join
+}
+
+// xpathReplace is the oracle for replace(): every match is replaced by the
+// template in which "$" followed by decimal digits refers to a capture group:
+// the longest prefix of the digits that is the number of an existing group
+// (0 = the whole match) is the reference, the remaining digits are literal; if
+// no prefix qualifies the first digit alone is an (empty) reference.  Templates
+// with "$" not followed by a digit are not generated.  It uses only
+// regexp.FindAllStringSubmatchIndex, not regexp's template syntax.
+func xpathReplace(re *regexp.Regexp, s, tmpl string) string {
+	var b strings.Builder
+	last := 0
+	for _, m := range re.FindAllStringSubmatchIndex(s, -1) {
+		b.WriteString(s[last:m[0]])
+		for i := 0; i < len(tmpl); i++ {
+			c := tmpl[i]
+			if c != '$' || i+1 >= len(tmpl) || tmpl[i+1] < '0' || tmpl[i+1] > '9' {
+				b.WriteByte(c)
+				continue
+			}
+			j := i + 1
+			best, bestVal, val := 0, 0, 0
+			for k := j; k < len(tmpl) && tmpl[k] >= '0' && tmpl[k] <= '9' && k-j < 9; k++ {
+				val = val*10 + int(tmpl[k]-'0')
+				if val <= re.NumSubexp() {
+					best, bestVal = k-j+1, val
+				}
+			}
+			if best == 0 {
+				best, bestVal = 1, -1
+			}
+			if bestVal >= 0 && m[2*bestVal] >= 0 {
+				b.WriteString(s[m[2*bestVal]:m[2*bestVal+1]])
+			}
+			i = j + best - 1
+		}
+		last = m[1]
+	}
+	b.WriteString(s[last:])
+	return b.String()
 }
